@@ -170,7 +170,10 @@ def _construction_order(model: Model, V: RuleResult):
             continue
         vname = val[0]
         rets = [r for r in own_nodes(f.node) if isinstance(r, ast.Return) and r.value is not None]
-        resnames = {r.value.id for r in rets if isinstance(r.value, ast.Name)} | {r.value.value.id for r in rets if isinstance(r.value, ast.Subscript) and isinstance(r.value.value, ast.Name)}
+        def arms(e):
+            return arms(e.body) + arms(e.orelse) if isinstance(e, ast.IfExp) else [e]
+        rvals = [a for r in rets for a in arms(r.value)]
+        resnames = {v.id for v in rvals if isinstance(v, ast.Name)} | {v.value.id for v in rvals if isinstance(v, ast.Subscript) and isinstance(v.value, ast.Name)}
         ok = False
         why = ""
         for rn in resnames:
@@ -192,8 +195,8 @@ def _construction_order(model: Model, V: RuleResult):
             V.bad(f, rets[-1] if rets else f.node, "%s: the returned list is not built by iterating the requested indices in order (sorted / de-duplicated / "
                   "dict-ordered construction returns the operator of another argument at position k)" % q)
         # the int shortcut returns element 0
-        ints = [r for r in rets if isinstance(r.value, ast.Subscript)]
-        if ints and all(ast.unparse(r.value.slice) == "0" for r in ints):
+        ints = [v for v in rvals if isinstance(v, ast.Subscript)]
+        if ints and all(ast.unparse(v.slice) == "0" for v in ints):
             V.ok(f.fq, "%s: an integer selection returns the single operator" % q)
 
 
